@@ -239,18 +239,29 @@ func applyJSGenerated(c C16Case) (string, error) {
 	if err != nil {
 		return "", err
 	}
-	resp, err := theNode.do(jsRequest{Files: files, Calls: []jsCall{{Name: "dgen.t", Data: map[string]interface{}{"x": c.Value.S}}}})
+	calls := []jsCall{{Name: "dgen.t", Data: map[string]interface{}{"x": c.Value.S}}}
+	if len(c.Value.S)%3 == 0 {
+		// the page has rendered other values before this one, in the same JavaScript realm: text that is
+		// not well-formed UTF-16 (a directive may throw on it) and text full of the characters the
+		// directives treat specially. Neither may change what the value under test becomes.
+		calls = append([]jsCall{{Name: "dgen.t", Data: json.RawMessage(c16Poison[1])}, {Name: "dgen.t", Data: json.RawMessage(c16Poison[0])}}, calls...)
+	}
+	resp, err := theNode.do(jsRequest{Files: files, Calls: calls})
 	if err != nil {
 		return "", fmt.Errorf("infra: %v", err)
 	}
 	if resp.Load[0] != nil {
 		return "", fmt.Errorf("generated JavaScript does not load: %s\n%s", *resp.Load[0], files[0].Src)
 	}
-	if !resp.Results[0].OK {
-		return "", fmt.Errorf("generated function threw %s\n%s", resp.Results[0].Error, files[0].Src)
+	last := resp.Results[len(resp.Results)-1]
+	if !last.OK {
+		return "", fmt.Errorf("generated function threw %s\n%s", last.Error, files[0].Src)
 	}
-	return resp.Results[0].Out, nil
+	return last.Out, nil
 }
+
+// c16Poison: data (as JSON text: Go strings cannot hold a lone surrogate) rendered before the value under test
+var c16Poison = []string{`{"x":"a value of some length, so that a position kept from it lies far into the next one: it's (new) \ud83d"}`, `{"x":"\ude00 (a) 'b' <c> & \n"}`}
 
 func jsStr(s string) string { b, _ := json.Marshal(s); return string(b) }
 
@@ -273,15 +284,22 @@ func applyJS(c C16Case) (string, error) {
 	case "truncate":
 		ex = fmt.Sprintf("soy.$$truncate(%s, %d, %v)", arg, c.Arg, c.Ell != 2)
 	}
-	resp, err := theNode.do(jsRequest{Evals: []string{"String(" + ex + ")"}})
+	evals := []string{"String(" + ex + ")"}
+	if len(c.Value.S)%3 == 1 {
+		// (other values went through the same function before, see c16Poison)
+		fn := ex[:strings.Index(ex, "(")]
+		evals = append([]string{"(function(){try{" + fn + "(\"(')*!~ \\uDE00\", 2)}catch(e){}; try{" + fn + "(\"a value of some length, so that a position kept from it lies far into the next one: it's (\\uD83D a<b>&\\n\", 3)}catch(e){}; return 0})()"}, evals...)
+	}
+	resp, err := theNode.do(jsRequest{Evals: evals})
 	if err != nil {
 		return "", fmt.Errorf("infra: %v", err)
 	}
-	if !resp.Evals[0].OK {
-		return "", fmt.Errorf("javascript threw %s", resp.Evals[0].Error)
+	judged := resp.Evals[len(resp.Evals)-1]
+	if !judged.OK {
+		return "", fmt.Errorf("javascript threw %s", judged.Error)
 	}
 	var out string
-	if err := json.Unmarshal(resp.Evals[0].Value, &out); err != nil {
+	if err := json.Unmarshal(judged.Value, &out); err != nil {
 		return "", fmt.Errorf("infra: %v", err)
 	}
 	return out, nil
@@ -295,7 +313,7 @@ func htmlDecode(s string) string {
 func decodeUri(out string, js bool) (string, error) {
 	for i := 0; i < len(out); i++ {
 		ch := out[i]
-		safe := ch >= 'a' && ch <= 'z' || ch >= 'A' && ch <= 'Z' || ch >= '0' && ch <= '9' || strings.IndexByte("-_.~%!*'()", ch) >= 0 || (!js && ch == '+') // unreserved, the sub-delimiters encodeURIComponent keeps, escapes
+		safe := ch >= 'a' && ch <= 'z' || ch >= 'A' && ch <= 'Z' || ch >= '0' && ch <= '9' || strings.IndexByte("-_.~%!*", ch) >= 0 || (!js && ch == '+') // unreserved, the two sub-delimiters that both backends keep (! and *), escapes - not the quote and the parentheses, which both backends encode (a quote would end an attribute value)
 		if !safe {
 			return "", fmt.Errorf("character %q at offset %d is not URL-safe", ch, i)
 		}
